@@ -307,7 +307,7 @@ func (s *Sim) spawn(name string, daemon bool, f func()) *Task {
 			s.mu.Lock()
 			if r != nil {
 				t.Panic = r
-				buf := make([]byte, 8192)
+				buf := make([]byte, 32768)
 				t.Stack = string(buf[:runtime.Stack(buf, false)])
 			}
 			t.State = StDone
